@@ -229,7 +229,7 @@ CHECKS = {
              "response resolves the first-registered listener of its command, whose request is running; task steps "
              "never add listeners; the invariant holds under every order of task micro-steps "
              "(C13_no_residue_any_schedule). Tied by systematic cancel/expiry scenarios and random schedules on the real code "
-             "with a listener-count monitor and the model's attribution of every RET. A registered listener carries its request's command, so a request that is running and unanswered while every other request for its command has ended is the one the next response resolves (C13_next_request_gets_its_response).",
+             "with a listener-count monitor and the model's attribution of every RET. A registered listener carries its request's command, so a request that is running and unanswered while every other request for its command has ended is the one the next response resolves (C13_next_request_gets_its_response). The waiters are pairwise distinct per request, and on them the request machine's find/filter is exactly the dispatch loop of the C12 listener-table model (C13_routing_is_listener_table).",
         note=Q,
         design="7/C13"),
     "C14": dict(
